@@ -236,8 +236,8 @@ package v1
 // (data's own backing array up to its capacity is scratch), output goes to out only, nothing else is written: in
 // particular data is not retained anywhere (C08: the pooled buffer does not escape), no package-level state is written.
 // Which functions are passed is checked where they are passed ([C02.dec.consumer], [C01.enc.producer]: isfunc / bound). That their
-// contracts refine this one is NOT machine-checked (the engine has no refinement obligation for `functype ... skip`); by inspection:
-// both require only out != nil (weaker than below), have exactly the frame below, and this contract promises no postcondition.
+// contracts refine this one is machine-checked: both declare `refines functype …processSegmentFn` (refine:pre: their preconditions
+// follow from the one below; refine:frame: their frames lie within the frame below; this contract promises no postcondition).
 //@ func functype github.com/dapr/kit/schemes/enc/v1.processSegmentFn
 //@   skip
 //@   requires out != nil && len(data) > 0
@@ -247,6 +247,7 @@ package v1
 // place (dst = data[:0]); exactly the l+16 bytes Seal returned are written to out in one Write.
 //@ func (fileKey).EncryptSegment
 //@   tags C01 C07 C08
+//@   refines functype github.com/dapr/kit/schemes/enc/v1.processSegmentFn
 //@   ghost ct [int]int
 //@   ghost ctoff int
 //@   requires out != nil
@@ -268,6 +269,7 @@ package v1
 // fails the result is ErrDecryptionFailed and nothing is written.
 //@ func (fileKey).DecryptSegment
 //@   tags C01 C02 C07 C08
+//@   refines functype github.com/dapr/kit/schemes/enc/v1.processSegmentFn
 //@   ghost pt [int]int
 //@   ghost ptoff int
 //@   ghost openerr iface
